@@ -80,6 +80,8 @@ class Result:
         self.cex = None
         self.replay = None
         self.cmd = ""
+        self.ub_notes = []
+        self.builtin_only = False
 
 
 class Engine:
@@ -340,7 +342,10 @@ class Engine:
         self.parse_cbmc(obl, res, out_path, p.returncode)
         if res.status == "failed" and obl.replay:
             try:
-                self.replay(obl, res)
+                if res.builtin_only:
+                    self.replay_asan(obl, res)
+                else:
+                    self.replay(obl, res)
             except Exception as e:  # noqa
                 res.replay = {"verdict": "replay-error", "detail": str(e)[-500:]}
         return res
@@ -390,8 +395,14 @@ class Engine:
         if model:
             res.status, res.detail = "undecided", "model bound exceeded: " + "; ".join(sorted(set(f.get("description", "") for f in model)))[:300]
             return
+        # Standard-level UB that no sanitizer can confirm (forming / comparing a pointer outside its object without
+        # dereferencing it) is reported separately and is not a verdict
+        soft = [f for f in fails if is_soft_ub(f.get("description", ""))]
+        fails = [f for f in fails if not is_soft_ub(f.get("description", ""))]
+        res.ub_notes = sorted(set(f"{f.get('description', '')} @ {(f.get('sourceLocation') or {}).get('function', '?')}" for f in soft))
         if fails:
             res.status = "failed"
+            res.builtin_only = not any(f.get("description", "").startswith(("PROP:", "NORETURN")) for f in fails)
             res.failed_props = [{"property": f.get("property"), "description": f.get("description"),
                                  "line": (f.get("sourceLocation") or {}).get("line")} for f in fails]
             # prefer a PROP failure for the counterexample, then NORETURN, then built-in checks
@@ -461,6 +472,68 @@ class Engine:
             verdict = "replay-inconclusive"
         res.replay = {"verdict": verdict, "real": real, "generated_c": gen, "init": init}
 
+    def asan_obj(self, unit):
+        """the real code of one configuration compiled natively with ASan+UBSan (for replaying CBMC's built-in
+        memory-safety / arithmetic failures); built only when needed"""
+        k = "asan_" + unit.cfg
+        with self.lock:
+            ent = self.unitobj.get(k)
+            if ent is None:
+                ent = self.unitobj[k] = {"ev": threading.Event(), "started": False, "err": None,
+                                         "path": os.path.join(self.work, k + ".o")}
+            mine = not ent["started"]
+            ent["started"] = True
+        if mine:
+            flags = []
+            for c in unit.cfg.split("+"):
+                flags += CFG_FLAGS[c]
+            r = subprocess.run([CLANGXX, "-std=c++20", "-O1", "-g", "-fno-access-control", "-fno-exceptions", "-Wno-everything",
+                                "-fsanitize=address,undefined", "-fno-sanitize-recover=undefined", "-fno-omit-frame-pointer",
+                                "-I" + os.path.join(REPO, "include"), "-I" + os.path.join(REPO, "src")] + flags +
+                               ["-c", os.path.join(VERIF, "shim", "vk.cpp"), "-o", ent["path"]], capture_output=True, text=True)
+            if r.returncode != 0:
+                ent["err"] = "asan build failed: " + r.stderr[-400:]
+            ent["ev"].set()
+        ent["ev"].wait()
+        if ent["err"]:
+            raise RuntimeError(ent["err"])
+        return ent["path"]
+
+    def replay_asan(self, obl, res):
+        if res.cex is None or any(u.prefix for u in obl.units):
+            res.replay = {"verdict": "unconfirmed-ub", "detail": "no sanitizer replay available for this obligation"}
+            return
+        init = c_init(res.cex)
+        extra = f"#define REPLAY 1\n#define REPLAY_INIT {init}\n"
+        src = self.obl_file(obl, "replay", extra)
+        exe = src[:-2] + ".asan.exe"
+        objs = []
+        for u in obl.units:
+            o = self.asan_obj(u)
+            if o not in objs:
+                objs.append(o)
+        cobj = src[:-2] + ".asan.o"
+        r = subprocess.run([GCC, "-O0", "-g", "-w", "-c", src, "-o", cobj, "-I", os.path.join(VERIF, "ll2c"),
+                            "-I", os.path.join(VERIF, "harness"), "-I", os.path.join(VERIF, "ref")], capture_output=True, text=True)
+        if r.returncode != 0:
+            res.replay = {"verdict": "replay-error", "detail": r.stderr[-300:]}
+            return
+        r = subprocess.run([CLANGXX, "-fsanitize=address,undefined", cobj] + objs + ["-o", exe, "-lpthread"], capture_output=True, text=True)
+        if r.returncode != 0:
+            res.replay = {"verdict": "replay-error", "detail": r.stderr[-300:]}
+            return
+        try:
+            r = subprocess.run([exe], capture_output=True, text=True, timeout=120, errors="replace",
+                               env=dict(os.environ, ASAN_OPTIONS="detect_leaks=0:abort_on_error=0", UBSAN_OPTIONS="print_stacktrace=0"))
+            out = (r.stdout + r.stderr)
+        except subprocess.TimeoutExpired:
+            res.replay = {"verdict": "replay-error", "detail": "timeout"}
+            return
+        hit = "AddressSanitizer" in out or "runtime error:" in out
+        m = re.search(r"(ERROR: AddressSanitizer[^\n]*|[^\n]*runtime error:[^\n]*)", out)
+        res.replay = {"verdict": "reproduced" if hit else "unconfirmed-ub", "sanitizer": (m.group(1)[:300] if m else ""),
+                      "rc": r.returncode, "init": init, "mode": "asan+ubsan build of the real code"}
+
     # ---------------------------------------------------------------- run many
     def run_all(self, obls):
         results = []
@@ -510,6 +583,10 @@ class MemSem:
                     sem.used -= gb
                     sem.cv.notify_all()
         return _Ctx()
+
+
+def is_soft_ub(desc):
+    return desc.startswith("pointer relation") or desc.startswith("pointer arithmetic") or "pointer outside object bounds in" in desc and "dereference" not in desc
 
 
 # ---------------------------------------------------------------- trace decoding
